@@ -689,6 +689,8 @@ class ViewsStream(Stream):
 
     def oracle(self, case, real_out):
         key = json.dumps(case, sort_keys=True)
+        if real_out.startswith("EXC:"):
+            return f"the real code raised {real_out[4:]} outside a mutator call"
         if key not in self._verdicts:
             self.real(case)
         problems = self._verdicts.get(key, [])
@@ -884,6 +886,8 @@ class ScalarStream(Stream):
 
     def oracle(self, case, real_out):
         key = json.dumps(case, sort_keys=True)
+        if real_out.startswith("EXC:"):
+            return f"the real code raised {real_out[4:]} outside a mutator call"
         if key not in self._verdicts:
             self.real(case)
         problems = self._verdicts.get(key, [])
@@ -906,7 +910,7 @@ CHECK = Check(
     modules=["WzVerif.Props.C16"],
     streams=[ViewsStream(), ScalarStream()],
     assumptions=[
-        "the header codecs used by the views (parse_list_header/urllib parse_http_list, parse_dict_header, dump_header, parse_csp_header, parse_content_range_header, WWWAuthenticate.from_header/to_header, parse_options_header without RFC 2231 `*` parameters) are transcribed in Model.Views and validated by stream views; their round-trip on the view contents a history visits is an explicit hypothesis of view_coherent (it is the subject of C06)",
+        "the header codecs used by the views (parse_list_header/urllib parse_http_list, parse_dict_header, dump_header, parse_csp_header, parse_content_range_header, WWWAuthenticate.from_header/to_header, parse_options_header without RFC 2231 `*` parameters) are transcribed in Model.Views and validated by stream views; their round-trip on the view contents a history visits is an explicit decidable side condition of view_coherent_* (it is the subject of C06); for HeaderSet views with token-valued members the round trip is proved (parseList_dumpList) and view_coherent_set_tokens carries no codec hypothesis",
         "dates (http_date / parse_date) are opaque: the harness computes the text with the same library call; the model covers the Headers mechanics of the date properties",
         "str.lower / title / strip follow Util.Py (ASCII letter case; Unicode white space table)",
         "known finding F16b: WWW-Authenticate view with neither token nor parameters is written back as 'Basic ' (header present for an empty view; re-read has token '')",
@@ -918,7 +922,7 @@ CHECK = Check(
 
 MANIFEST = {
     "level_text": "Machine-checked Lean 4 theorems: for every history of view mutations, re-fetches, whole-property assignments and direct header edits, the notification discipline of each view family (HeaderSet views under HeaderSet.Inv, cache-control / CSP / mimetype_params callback dicts, ContentRange, WWWAuthenticate as repaired) keeps the held view in sync with the header, and after an effective mutation the header text is the view's serialisation or absent when the view is empty; typed get/set for the scalar properties. The transcribed views are tied to the code by an exhaustive short-history correspondence stream and the two-part property oracle runs on the real objects.",
-    "level_note": "Trusted: Lean kernel; extract.py; harness; header codec round-trips are hypotheses (C06); dates opaque. Known finding F16b.",
+    "level_note": "Trusted: Lean kernel; extract.py; harness; header codec round-trips are decidable side conditions of the history (C06), proved outright for token-valued HeaderSet views; dates opaque. Known findings F16b-F16f, F08b/F08c through views.",
     "technique": "Lean 4 proof (invariant over operation histories, generic in the view family) + model/code correspondence",
     "design_ref": "DESIGN.md section 4, C16",
 }
